@@ -128,7 +128,14 @@ class Universe:
         for t in self.tasks:
             T.append((r(t.parent), tuple(r(c) for c in t.children), tuple(r(x) for x in t.predecessors),
                       tuple(r(x) for x in t.successors), r(t.wbs), t.id))
-        return (tuple(T), tuple(tuple(r(x) for x in w.roots) for w in self.wbs))
+        # third component: W.tasks as the public getter reports it (None if it does not terminate)
+        wt = []
+        for w in self.wbs:
+            try:
+                wt.append(tuple(r(x) for x in w.tasks))
+            except RecursionError:
+                wt.append(None)
+        return (tuple(T), tuple(tuple(r(x) for x in w.roots) for w in self.wbs), tuple(wt))
 
     def observe_attrs(self):
         out = []
@@ -213,7 +220,7 @@ class A:
 def abstract(obs, n, m):
     """Abstract state from an observation (which must be zombie-free)."""
     a = A(n, m)
-    T, Wl = obs
+    T, Wl = obs[0], obs[1]
     for i, (p, ch, pr, su, w, _id) in enumerate(T):
         a.par[i] = p
         a.ch[i] = list(ch)
@@ -226,7 +233,7 @@ def abstract(obs, n, m):
 
 
 def obs_has_zombie(obs):
-    T, Wl = obs
+    T, Wl = obs[0], obs[1]
     for (p, ch, pr, su, w, _id) in T:
         if p == 'Z' or w == 'Z' or 'Z' in ch or 'Z' in pr or 'Z' in su:
             return True
@@ -243,7 +250,14 @@ def state_violations(U: Universe, obs):
     """Invariants decidable from the observation alone (C01 a-e, C05 a, C11 a)."""
     out = []
     n, m = U.n, U.m
-    T, Wl = obs
+    T, Wl = obs[0], obs[1]
+    # C05: WBS.tasks lists every member exactly once (checked on the raw getter output, so it is also evaluated in states
+    # whose hierarchy is broken)
+    for k, wt in enumerate(obs[2]):
+        if wt is None:
+            out.append(('C05', 'wbs-tasks-does-not-terminate', f'W{k}.tasks recurses without bound'))
+        elif len(set(wt)) != len(wt):
+            out.append(('C05', 'wbs-tasks-lists-member-twice', f'W{k}.tasks = {list(wt)}'))
     if obs_has_zombie(obs):
         out.append(('C01', 'unknown-task-object-reachable', 'a task object outside the universe is reachable'))
         return out
